@@ -9,6 +9,7 @@ package main
 import (
 	"bytes"
 	"fmt"
+	"strings"
 
 	specqbft "github.com/bloxapp/ssv-spec/qbft"
 	spectypes "github.com/bloxapp/ssv-spec/types"
@@ -57,8 +58,20 @@ func (c *Case) cmpSpec(opKind string, r instResult, timers string, s specResult)
 	}
 	what := ""
 	switch {
-	case r.res != s.res:
+	case (r.res == "ok") != (s.res == "ok"):
+		// the property is about WHICH messages are accepted; both sides rejecting with different guard chains is not a difference
 		what = "accept-reject(" + r.res + " vs " + s.res + ")"
+		if strings.HasSuffix(r.res, "wrongMsgIdentifier") && s.res == "ok" {
+			// deliberate deviation of the repaired node (fix e1612ceed): a round change / embedded justification that carries
+			// another instance's identifier is refused; the reference accepts it (that is the cross-role replay behind the C01 defect)
+			what = "foreign-identifier-justification-refused-by-node-accepted-by-reference"
+		}
+	case r.res != s.res:
+		if !strings.HasSuffix(r.res, "wrongMsgIdentifier") {
+			// differing guard chains for a message both sides refuse: reported, because on this tree the port keeps the guard
+			// order of the reference everywhere except for the identifier guard added by fix e1612ceed
+			what = "reject-tag(" + r.res + " vs " + s.res + ")"
+		}
 	case !sameBytes(r.bcasts, s.bcasts):
 		what = "broadcasts"
 	case timers != s.timers:
